@@ -27,9 +27,11 @@ package bed
 //@ func mustAtoa
 //@   property C03
 //@   throws
-//@   assigns fresh
+//@   assigns fresh, splitCount(0), lastSplitLen(0)
 //@   ensures len(result) >= 0
-//@   loop 1 invariant 0 <= idx && idx <= len(c) && len(a) == len(c)
+//@   ensures [no-element-skipped] len(result) >= lastSplitLen(0) - 1 && splitCount(0) >= old(splitCount(0))
+//@   exsures [monotone-on-error] splitCount(0) >= old(splitCount(0))
+//@   loop 1 invariant 0 <= idx && idx <= len(c) && len(a) == len(c) && lastSplitLen(0) == len(c) && splitCount(0) >= old(splitCount(0))
 
 //@ func parseBed3
 //@   property C03 C04
